@@ -10,7 +10,11 @@ CONFIG = dict(
                 "with a session-table model written from the property text. A second unit overlaps requests: SendChunk of one or "
                 "more peers is held back (per-peer gates, single calls let through) with 1-4 sender threads while further requests "
                 "resume the same sessions or serve sessions of the same and of other (held-back or free) peers; only the reader "
-                "loop is awaited between requests, responses are collected and checked when the gates are opened."),
+                "loop is awaited between requests, responses are collected and checked when the gates are opened. A third unit injects send "
+                "faults: a drawn subset of the peers is broken (every SendChunk returns an error) or flaky (a drawn subset of the sends of "
+                "each request fails) with mostly small pending-memory limits, so that a handful of failed responses add up to the limit; "
+                "all other sessions must still be served as the property states and the seeder's pending-memory counter must return to "
+                "zero whenever nothing is pending."),
     level_note=NOTE_COMMON + (" The reader loop is asynchronous: TestC17Sessions issues operations one at a time and waits for a "
                               "sentinel request of a private peer to be reached (40 round trips after UnregisterPeer) and for the responses; "
                               "TestC17Pipelined waits for the reader loop only, so responses of several requests, sessions and peers overlap "
@@ -19,7 +23,13 @@ CONFIG = dict(
                               "issued only if its responses fit into one sender queue and under the pending limit, else the gates are opened "
                               "first); a 2 s stall would open the gates (never observed). The pending-memory clause is "
                               "bounded from outside (responses handed to the sender whose SendChunk has not returned), which is a "
-                              "lower bound of the private counter."),
+                              "lower bound of the private counter; in addition the private counter BaseSeeder.pendingResponsesSize "
+                              "itself is read (reflect + atomic load, observation point 'BaseSeeder pending size'): at every ForEachItem/SendChunk "
+                              "entry it must be <= limit - 1 + largest response and >= the memory of the responses inside SendChunk at that "
+                              "moment; when nothing is pending it must be 0, decided without timing (one sentinel response is pushed through "
+                              "every sender thread first; a sender thread runs its tasks one after the other). If the reader loop stands still "
+                              "because the counter stays at its limit for 10 s although SendChunk returned for every produced response, that is "
+                              "reported (inconclusive if the canary saw the machine stall)."),
     rule=("One case = one history of 4-30 operations on a fresh seeder with drawn configuration (1-4 sender threads, sender queue "
           "1/4/64, pending limit 1/20/60/unbounded, response limits). Oracle: per peer at most three live sessions, the oldest is "
           "dropped only when a new session is opened while three are held, unregister clears; each session delivers the items of "
@@ -35,7 +45,15 @@ CONFIG = dict(
           "ForEachItem calls seen between two sentinels), plus: every produced response reaches SendChunk of its peer exactly once, and "
           "for each session the order in which SendChunk is CALLED (recorded at entry) equals the order in which its responses were "
           "produced, i.e. the items of the session arrive in order across requests. Non-trivial = a session is resumed and served by "
-          "a request while at least two of its earlier responses have not been sent yet."),
+          "a request while at least two of its earlier responses have not been sent yet. "
+          "TestC17SendFaults: the histories of TestC17Sessions with 1-3 peers of which at least one is broken (all sends fail) or flaky "
+          "(each send of a request fails with probability 1/2, drawn), pending limit 1/20/40/60/100/150/400/unbounded. A response whose "
+          "SendChunk returned an error still has to be the regular next response of its session; from then on its session only owes "
+          "what holds under every reading of the property (consecutive items of the session, none that was already delivered, limits, "
+          "Done only with the last items, nothing after a delivered Done). Every other session - of healthy peers and of the faulty "
+          "peers themselves - gets the full oracle, including being served to its Done once enough chunks were requested, and after "
+          "every request the pending counter must be back at zero. Non-trivial = a session without failed sends is served to its Done by "
+          "a request issued after at least one send failed."),
     assumptions=["TestC17Sessions: requests are issued one at a time (quiescence between operations)",
                  "TestC17Pipelined: requests are submitted by one goroutine (their order in the request channel is the issue order); "
                  "calls of SendChunk for one session are serialized (one sender thread per session), so the order of call entries is well defined",
@@ -44,10 +62,15 @@ CONFIG = dict(
                  "a short pause (0.3 ms steps until no SendChunk call starts or ends) lets sender threads start the calls they can; it only "
                  "affects how much the scenarios overlap, never a verdict",
                  "ForEachItem is implemented the documented way (onKey before adding an item, onAppended after)",
-                 "after UnregisterPeer, 40 sentinel round trips mean the unregistration was consumed (failure probability 2^-40)"],
+                 "after UnregisterPeer, 40 sentinel round trips mean the unregistration was consumed (failure probability 2^-40)",
+                 "TestC17SendFaults: a failing Peer.SendChunk returns promptly with an error (it does not block or panic); a response counts as "
+                 "sent when SendChunk returned nil; the seeder is not required to retry, skip or abandon a session after a failed send",
+                 "the pending counter is the int64 field BaseSeeder.pendingResponsesSize; if it cannot be located the counter clauses are skipped "
+                 "and only the externally visible behaviour is checked"],
     units=[
         dict(test="TestC17Regression", kind="plain"),
         dict(test="TestC17Sessions", quick=200, thorough=32000, shards=16),
         dict(test="TestC17Pipelined", quick=150, thorough=16000, shards=16),
+        dict(test="TestC17SendFaults", quick=150, thorough=16000, shards=16),
     ],
 )
